@@ -50,7 +50,7 @@ TEXT = {
     "C16": "command surface = public functions and properties, dash-naming injective, flag assignment never claims -h and never clashes (parser can be built), handshake reply, help everywhere",
     "C17": "round trip: for every public method, every option subset in short or long form before or after the positionals, the parse is the call with the expected namespace (defaults = the method's own); dispatch split and reply rule",
     "C18": "one reply per non-blank line (counting invariant over all session histories), buffer empty between commands, errors and help change nothing, sessions independent",
-    "C19": "server life-cycle machine: serving until stop, done iff stop requested and all clients gone, refuses after stop, disconnects isolated, socket file removed",
+    "C19": "server life-cycle machine: serving until stop, done iff stop requested and all clients gone, refuses after stop, disconnects isolated, socket file removed, same object serves again after a restart",
 }
 BASE = {pid: (M1, M1_NOTE) for pid in TEXT}
 BASE["C20"] = (M2, M2_NOTE)
